@@ -278,7 +278,16 @@ def _mk_eq_fn( fields ):
 #   return hash((self.x,self.y,))
 
 def _mk_hash_fn( fields ):
-  self_tuple = _mk_tuple_str( 'self', fields )
+
+  # A list field is hashed as a (nested) tuple of its elements
+  def _gen_hashable_str( type_, expr, depth=0 ):
+    if isinstance( type_, list ):
+      e = f"_e{depth}"
+      return f"tuple({_gen_hashable_str( type_[0], e, depth+1 )} for {e} in {expr})"
+    return expr
+
+  self_tuple = '(' + ''.join( f"{_gen_hashable_str( type_, f'self.{name}' )},"
+                              for name, type_ in fields.items() ) + ')'
   return _create_fn(
     '__hash__',
     [ 'self' ],
